@@ -9,6 +9,11 @@ use std::collections::BTreeMap;
 use stellar_governance::votes::{self, Votes};
 use stellar_tokens::fungible::{votes::FungibleVotes, FungibleToken};
 
+mod fv_ex {
+    #[path = "/repo/examples/fungible-votes/src/contract.rs"]
+    pub mod c;
+}
+
 #[contract]
 pub struct VTok;
 #[contractimpl]
@@ -51,6 +56,9 @@ pub enum Step {
 pub struct Cfg {
     pub actors: usize,
     pub start_ledger: u32,
+    /// run against examples/fungible-votes (from source; owner-only mint, no burn entry points)
+    #[serde(default)]
+    pub example: bool,
 }
 
 #[derive(Clone, Debug, Default)]
@@ -59,6 +67,7 @@ struct Model {
     approved: std::collections::BTreeSet<(usize, usize)>,
     del: BTreeMap<usize, usize>,
     now: u32,
+    example: bool,
     // timelines: value at end of ledger
     votes_tl: BTreeMap<usize, BTreeMap<u32, u128>>,
     supply_tl: BTreeMap<u32, u128>,
@@ -98,7 +107,7 @@ impl Model {
                 true
             }
             Step::Burn { from, amt } => {
-                if amt < 0 || self.b(from) < amt {
+                if self.example || amt < 0 || self.b(from) < amt {
                     return false;
                 }
                 *self.bal.entry(from).or_insert(0) -= amt;
@@ -125,7 +134,7 @@ impl Model {
                 true
             }
             Step::BurnFrom { spender, from, amt } => {
-                if (!self.approved.contains(&(from, spender)) && amt > 0) || amt < 0 || self.b(from) < amt {
+                if self.example || (!self.approved.contains(&(from, spender)) && amt > 0) || amt < 0 || self.b(from) < amt {
                     return false;
                 }
                 *self.bal.entry(from).or_insert(0) -= amt;
@@ -158,7 +167,7 @@ impl Check for VotesCheck {
         }
     }
     fn components(&self) -> serde_json::Value {
-        serde_json::json!({"real": ["stellar_governance::votes::*", "stellar_tokens::fungible::votes::FungibleVotes", "fungible Base"], "stub": ["Wallet"]})
+        serde_json::json!({"real": ["examples/fungible-votes (from source; 30 % of the runs)", "stellar_governance::votes::*", "stellar_tokens::fungible::votes::FungibleVotes", "fungible Base"], "stub": ["Wallet"]})
     }
     fn clock_step(&self, n: u32) -> Option<Step> {
         Some(Step::Advance { n })
@@ -176,10 +185,10 @@ impl Check for VotesCheck {
         true
     }
     fn generate(&self, rng: &mut Rng, tier: Tier) -> (Cfg, Vec<Step>) {
-        let cfg = Cfg { actors: 3 + rng.below(3) as usize, start_ledger: 1 + rng.below(100_000) as u32 };
+        let cfg = Cfg { actors: 3 + rng.below(3) as usize, start_ledger: 1 + rng.below(100_000) as u32, example: rng.chance(30) };
         let n = cfg.actors as u64;
         let nsteps = if tier == Tier::Quick { 20 + rng.below(40) } else { 20 + rng.below(100) } as usize;
-        let mut m = Model { now: cfg.start_ledger, ..Default::default() };
+        let mut m = Model { now: cfg.start_ledger, example: cfg.example, ..Default::default() };
         let same_ledger_bias = rng.range(20, 70);
         let mut steps = vec![];
         for _ in 0..nsteps {
@@ -227,10 +236,11 @@ impl Check for VotesCheck {
     fn execute(&self, cfg: &Cfg, steps: &[Step], st: &mut Stats) -> Result<(), Violation> {
         let w = W::new(cfg.actors, cfg.start_ledger, 16);
         let e = &w.e;
-        let id = e.register(VTok, ());
-        let c = VTokClient::new(e, &id);
         let a = |i: usize| w.actors[i].clone();
-        let mut m = Model { now: cfg.start_ledger, ..Default::default() };
+        let id = if cfg.example { e.register(fv_ex::c::ExampleContract, (a(0),)) } else { e.register(VTok, ()) };
+        // the token and votes entry points have the same names and signatures in both contracts
+        let c = VTokClient::new(e, &id);
+        let mut m = Model { now: cfg.start_ledger, example: cfg.example, ..Default::default() };
         let mut touched: Vec<u32> = vec![]; // ledgers in which something happened
         for (i, s) in steps.iter().enumerate() {
             let kind;
@@ -245,7 +255,12 @@ impl Check for VotesCheck {
                 }
                 Step::Mint { to, amt } => {
                     kind = "mint";
-                    w.set_auth(&[]);
+                    if cfg.example {
+                        // #[only_owner]: the owner (actor 0) signs
+                        w.set_auth(&[(0, Inv::new(&id, "mint", (a(*to), *amt).into_val(e)))]);
+                    } else {
+                        w.set_auth(&[]);
+                    }
                     c.try_mint(&a(*to), amt).is_ok()
                 }
                 Step::Burn { from, amt } => {
@@ -304,7 +319,7 @@ impl Check for VotesCheck {
                 if v != m.votes(x) {
                     return Err(violation("votes.eq_sum_delegators", kind, i, format!("actor {x}: get_votes {v} model {}", m.votes(x))));
                 }
-                let u = c.voting_units(&a(x));
+                let u: u128 = e.as_contract(&id, || votes::get_voting_units(e, &a(x)));
                 let b = c.balance(&a(x));
                 if u != b as u128 || b != m.b(x) {
                     return Err(violation("units.eq_balance", kind, i, format!("actor {x}: units {u} balance {b} model {}", m.b(x))));
